@@ -263,3 +263,60 @@ def z3_value_to_fraction(v):
     if z3.is_false(v):
         return Fraction(0)
     return None
+
+
+# ----------------------------------------------------------------------------------------------------------------
+# parallel verification jobs: each job builds its own executor / registry in a fresh process and hands its obligations back
+# ----------------------------------------------------------------------------------------------------------------
+def _job_worker(spec):
+    import importlib
+    import traceback
+    from pyvc import source, solver
+    from pyvc.executor import Unsupported
+    mod, fn = spec["fn"].split(":")
+    t0 = time.time()
+    reg = solver.Registry(spec.get("timeout_ms", 20000))
+    out = dict(label=spec.get("label", spec["fn"]), obligations=[], error=None, unsupported=None, stats={})
+    try:
+        src = source.load_all()
+        res = getattr(importlib.import_module(mod), fn)(reg, src, **spec.get("kwargs", {}))
+        if isinstance(res, dict):
+            out["stats"] = res
+    except Unsupported as e:
+        out["unsupported"] = str(e)
+    except Exception:
+        out["error"] = traceback.format_exc()
+    for ob in reg.obligations:
+        d = {}
+        for k, v in ob.__dict__.items():
+            if k == "z3model":
+                continue
+            if k == "region" and isinstance(v, tuple):
+                v = v[0]
+            d[k] = json.loads(json.dumps(v, default=str))
+        out["obligations"].append(d)
+    out["seconds"] = round(time.time() - t0, 1)
+    return out
+
+
+def run_jobs(reg, jobs, workers=None):
+    """Run verification jobs in parallel processes; their obligations are appended to `reg` (in job order).  Returns the per-job summaries.
+    A job that crashes raises here (exit 3 by the dispatcher); a job outside the executor's subset leaves an `undecided` obligation."""
+    import multiprocessing as mp
+    from pyvc import solver
+    workers = workers or min(len(jobs), max(1, (os.cpu_count() or 4) - 2))
+    ctx = mp.get_context("spawn")
+    with ctx.Pool(workers) as pool:
+        results = pool.map(_job_worker, jobs, chunksize=1)
+    for r in results:
+        if r["error"]:
+            raise RuntimeError("verification job %s crashed:\n%s" % (r["label"], r["error"]))
+        for d in r["obligations"]:
+            ob = solver.Obligation(reg.unique(d["name"]), d["kind"], d["func"], d.get("lineno"))
+            for k, v in d.items():
+                if k != "name":
+                    setattr(ob, k, v)
+            reg.obligations.append(ob)
+        if r["unsupported"]:
+            reg.undecided("%s/executor/unsupported" % r["label"], "unsupported", "executor", r["unsupported"])
+    return [dict(label=r["label"], obligations=len(r["obligations"]), seconds=r["seconds"], stats=r["stats"]) for r in results]
